@@ -19,7 +19,12 @@ Failed(e) ==
 Step ==
   LET e == Rec[l] IN
   CASE e.e = "reset" -> infl' = <<>> /\ beh' = e.b /\ plan' = e.plan
-    [] e.e = "send" -> infl' = (e.tid :> [to |-> e.to, at |-> e.t]) @@ infl /\ UNCHANGED <<beh, plan>>
+    \* a (transaction id, address) pair identifies ONE request: while a request is unanswered its pair is not used again - the late
+    \* reply to it could not be told from the reply to the new request
+    [] e.e = "send" -> /\ IF Known(e.tid) /\ infl[e.tid].to = e.to
+                          THEN PrintT(<<"VIOL", ToJson([line |-> l, b |-> beh, failed |-> {"C09_TidsNotReused"}, plan |-> plan, known |-> TRUE, expired |-> FALSE])>>)
+                          ELSE TRUE
+                       /\ infl' = (e.tid :> [to |-> e.to, at |-> e.t]) @@ infl /\ UNCHANGED <<beh, plan>>
     [] e.e = "recv" ->
          /\ LET f == Failed(e) IN
             IF f # {} THEN PrintT(<<"VIOL", ToJson([line |-> l, b |-> beh, failed |-> f, plan |-> plan,
